@@ -68,3 +68,50 @@ func VH01a_dup() {
 	}
 	verif.Reach("dup")
 }
+
+// VH01h_disjoint: the header and the body of a message never share memory,
+// whatever their lengths: a header grown past its initial 32-byte buffer (a
+// long route), built before or after the body, leaves the body intact and
+// vice versa - for fresh, recycled, duplicated and made-unique messages.
+func VH01h_disjoint() {
+	lab := "C01/disjoint"
+	bl := verif.Choice("blen", 4)          // 0..3
+	hl := []int{0, 4, 31, 32, 33, 40, 72}[verif.Choice("hlen", 7)]
+	body := verif.Bytes("body", bl)
+	hdr := verif.Bytes("hdr", hl)
+	if verif.Choice("recycled", 2) == 1 {
+		m0 := NewMessage(bl)
+		m0.Body = append(m0.Body, 0xee)
+		m0.Header = append(m0.Header, 0xdd, 0xdd)
+		m0.Free()
+	}
+	m := NewMessage(bl)
+	if verif.Choice("header-first", 2) == 1 {
+		m.Header = append(m.Header, hdr...)
+		m.Body = append(m.Body, body...)
+	} else {
+		m.Body = append(m.Body, body...)
+		m.Header = append(m.Header, hdr...)
+	}
+	verif.Assert(len(m.Body) == bl && verif.BytesEq(m.Body, body), lab+"/body-overwritten-by-the-header")
+	verif.Assert(len(m.Header) == hl && verif.BytesEq(m.Header, hdr), lab+"/header-overwritten-by-the-body")
+	var d *Message
+	switch verif.Choice("copy", 3) {
+	case 0:
+		d = m.Dup()
+	case 1:
+		m.Clone()
+		d = m.MakeUnique()
+	case 2:
+		d = m
+	}
+	// growing either part of the copy further touches neither the other part nor the original
+	d.Header = append(d.Header, 0xa5)
+	d.Body = append(d.Body, 0x5a)
+	verif.Assert(verif.BytesEq(d.Body[:bl], body) && d.Body[bl] == 0x5a, lab+"/body-overwritten-by-the-header")
+	verif.Assert(verif.BytesEq(d.Header[:hl], hdr) && d.Header[hl] == 0xa5, lab+"/header-overwritten-by-the-body")
+	if d != m {
+		verif.Assert(len(m.Body) == bl && verif.BytesEq(m.Body, body) && len(m.Header) == hl && verif.BytesEq(m.Header, hdr), lab+"/copy-aliases-original")
+	}
+	verif.Reach("disjoint")
+}
